@@ -106,7 +106,132 @@ class Region:
         return out
 
 
-_MEMO: list[Any] = [None, {}, {}]      # [program, prepared functions, regions per prepared function node]
+_MEMO: list[Any] = [None, {}, {}, None]  # [program, prepared functions, regions per prepared node, anchors]
+
+# the private functions of the algorithm by role; the names are only the fall-back when a role cannot be
+# bound by dataflow from the public entry point (see `anchors`)
+HINT = {"consume": "_distribute_consume_power", "supply": "_distribute_supply_power", "dp": "_distribute_power",
+        "ieb": "_inclusion_exclusion_bounds", "ar": "_compute_battery_availability_ratio",
+        "greedy": "_greedy_distribute_remaining_power", "mip": "_distribute_multi_inverter_pairs"}
+
+
+def _reset(prog: Program) -> None:
+    if _MEMO[0] is not prog:
+        _MEMO[:] = [prog, {}, {}, None]
+
+
+def _self_call(e: ast.AST, methods: Any) -> str | None:
+    """Name of the method when `e` is `self.<m>(...)` / `cls.<m>(...)` / `<Class>.<m>(...)` of the class."""
+    if isinstance(e, ast.Call) and isinstance(e.func, ast.Attribute) and isinstance(e.func.value, ast.Name) \
+            and e.func.attr in methods:
+        return e.func.attr
+    return None
+
+
+def _item0(e: ast.AST | None, methods: Any) -> str | None:
+    """m when `e` is `self.<m>(...)[0]`."""
+    if isinstance(e, ast.Subscript) and isinstance(e.slice, ast.Constant) and e.slice.value == 0:
+        return _self_call(e.value, methods)
+    return None
+
+
+def anchors(prog: Program) -> dict[str, str]:
+    """Role -> method name of BatteryDistributionAlgorithm, bound by who calls whom with what, starting at the
+    public `distribute_power`:
+      consume / supply  the methods it returns on the path where `0 < power` is true / false;
+      ieb, dp           in the consume method: the callee whose result items are arguments of another callee,
+                        and that other callee;
+      ar                in dp: the callee whose first result item is iterated by the loop that creates cells;
+      mip               in dp: the callee whose first result item is the `distribution` of the returned result;
+      greedy            in dp: the callee whose first result item is handed to mip.
+    A role that cannot be bound this way keeps its customary name (hint)."""
+    _reset(prog)
+    if _MEMO[3] is not None:
+        return _MEMO[3]
+    out = dict(HINT)
+    try:
+        methods = prog.cls(BDA).methods
+    except (AnalysisError, KeyError):
+        methods = {}
+
+    def top(name: str) -> list[tuple[Path, str]]:
+        return _regions(methods[name].node)[0].paths
+
+    try:
+        pub = methods.get("distribute_power")
+        if pub is not None:
+            prm = _params(pub)
+            pos: dict[bool, set[str]] = {True: set(), False: set()}
+            for p, _st in top("distribute_power"):
+                m = _self_call(p.ret, methods) if p.exit == "return" and p.ret is not None else None
+                if m is None or not prm:
+                    continue
+                for zero in ("0.0", "0"):
+                    o = p.outcome(("<", zero, prm[0]))
+                    if o is None and p.outcome(("<", prm[0], zero)) is not None:
+                        o = not p.outcome(("<", prm[0], zero))
+                    if o is not None:
+                        pos[o].add(m)
+            if len(pos[True]) == 1 and len(pos[False]) == 1 and pos[True] != pos[False]:
+                out["consume"], out["supply"] = next(iter(pos[True])), next(iter(pos[False]))
+        if out["consume"] in methods:
+            for p, _st in top(out["consume"]):
+                for e in p.calls():
+                    m = _self_call(e.node, methods)
+                    srcs = {_self_call(a.value, methods) for a in list(e.node.args) + [k.value for k in e.node.keywords]  # type: ignore[attr-defined]
+                            if isinstance(a, ast.Subscript) and isinstance(a.slice, ast.Constant)}
+                    srcs.discard(None)
+                    if m is not None and len(srcs) == 1:
+                        out["dp"], out["ieb"] = m, next(iter(srcs))  # type: ignore[assignment]
+        if out["dp"] in methods:
+            dpn = methods[out["dp"]].node
+            rf = None
+            for p, _st in top(out["dp"]):
+                for e in p.effects:
+                    if e.kind == "loop" and any(isinstance(n, ast.Call) and u(n.func) == "_Power" for n in ast.walk(e.orig)):
+                        m = _item0(e.node, methods)
+                        if m is not None:
+                            out["ar"] = m
+                if p.exit == "return" and isinstance(p.ret, ast.Call) and u(p.ret.func) == "DistributionResult":
+                    if rf is None:
+                        rf = fields_of(prog, f"{MOD}:DistributionResult")
+                    d = positional(p.ret, rf).get(rf[0])
+                    m = _item0(d, methods)
+                    if m is not None:
+                        out["mip"] = m
+                        for a in list(d.value.args) + [k.value for k in d.value.keywords]:  # type: ignore[union-attr]
+                            g = _item0(a, methods)
+                            if g is not None:
+                                out["greedy"] = g
+            del dpn
+    except AnalysisError:
+        out = dict(HINT)
+    _MEMO[3] = out
+    return out
+
+
+INLINABLE = ("greedy", "mip")       # roles that the allocation function may play itself (helper inlined)
+
+
+def has(prog: Program, role: str) -> bool:
+    """Is there a function of its own for `role`?  (greedy / mip may be inlined into the allocation function:
+    their obligations are then decided on its paths.)"""
+    try:
+        return anchors(prog)[role] in prog.cls(BDA).methods
+    except (AnalysisError, KeyError):
+        return False
+
+
+def q(prog: Program, role: str) -> str:
+    """Qualified name of the function that plays `role` (the allocation function for an inlined role)."""
+    if role in INLINABLE and not has(prog, role):
+        role = "dp"
+    return f"{BDA}.{anchors(prog)[role]}"
+
+
+def sc(prog: Program, role: str) -> str:
+    """Text of the callee of a call of the function that plays `role`."""
+    return f"self.{anchors(prog)[role]}"
 
 
 def regions(fn: ast.FunctionDef | ast.AsyncFunctionDef, max_paths: int = 4096) -> list[Region]:
@@ -224,37 +349,55 @@ def table_sources(prog: Program, fn: FuncInfo, p: Path, expr: ast.AST | None, de
 
 
 def value_before(fn: Any, names: list[str]) -> list[ast.AST] | None:
-    """Symbolic values of the locals `names` (aliases of one quantity) at the first top-level loop that
-    re-binds one of them, one per path reaching it; None when there is no such top-level loop."""
-    body = list(_strip_doc(fn.body))
-    idx = None
-    for i, st in enumerate(body):
-        if isinstance(st, (ast.For, ast.AsyncFor, ast.While)) and any(
-                isinstance(n, ast.Name) and isinstance(n.ctx, ast.Store) and n.id in names for n in ast.walk(st)):
-            idx = i
-            break
-    if idx is None:
+    """Symbolic values of the locals `names` (aliases of one quantity) when the first loop (in program order,
+    wherever it is nested) that re-binds one of them is reached, one per path reaching it; None when there
+    is no such loop or none of the names is bound there."""
+    body = copy.deepcopy(list(_strip_doc(fn.body)))
+    mark = -7
+
+    def cut(stmts: list[ast.stmt]) -> bool:
+        for i, st in enumerate(stmts):
+            if isinstance(st, (ast.For, ast.AsyncFor, ast.While)):
+                if any(isinstance(n, ast.Name) and isinstance(n.ctx, ast.Store) and n.id in names for n in ast.walk(st)):
+                    ret = ast.Return(value=ast.Tuple(elts=[ast.Name(id=n, ctx=ast.Load()) for n in names], ctx=ast.Load()))
+                    stmts[i] = ast.fix_missing_locations(ast.copy_location(ret, st))
+                    stmts[i].lineno = mark
+                    del stmts[i + 1:]
+                    return True
+                continue
+            if isinstance(st, (ast.FunctionDef, ast.AsyncFunctionDef, ast.ClassDef)):
+                continue
+            for f in ("body", "orelse", "finalbody"):
+                sub = getattr(st, f, None)
+                if isinstance(sub, list) and sub and isinstance(sub[0], ast.stmt) and cut(sub):
+                    return True
+            for h in getattr(st, "handlers", []) or []:
+                if cut(h.body):
+                    return True
+        return False
+
+    if not cut(body):
         return None
     out: list[ast.AST] = []
-    for p, st in _Sym().block(Path(), body[:idx]):
-        if st != "next":
+    for p, st in _Sym().block(Path(), body):
+        if st != "return" or p.lineno != mark or not isinstance(p.ret, ast.Tuple):
             continue
-        bound = [p.env[n] for n in names if n in p.env]
+        bound = [v for n, v in zip(names, p.ret.elts) if not (isinstance(v, ast.Name) and v.id == n)]
         if not bound:
             return None
         out.extend(bound)
-    return out
+    return out or None
 
 
 def prep(prog: Program, qual: str) -> FuncInfo:
     """The anchored function with simple private helpers spliced into it (analysis-only copy; memoised per
     program)."""
-    if _MEMO[0] is not prog:
-        _MEMO[:] = [prog, {}, {}]
+    _reset(prog)
     got = _MEMO[1].get(qual)
     if got is None:
         fn = prog.func(qual)
-        node = inline_helpers(prog, fn, node=splice_blocks(prog, fn))
+        keep = set(anchors(prog).values())
+        node = inline_helpers(prog, fn, node=splice_blocks(prog, fn, keep), exclude=keep)
         got = _MEMO[1][qual] = FuncInfo(fn.name, fn.module, node, fn.cls, fn.outer)
     return got
 
@@ -283,7 +426,7 @@ def _plain(e: ast.AST) -> bool:
                               ast.BinOp, ast.Mult, ast.Add, ast.Sub)) for n in ast.walk(e))
 
 
-def splice_blocks(prog: Program, fn: FuncInfo, depth: int = 3) -> Any:
+def splice_blocks(prog: Program, fn: FuncInfo, keep: Iterable[str] = (), depth: int = 3) -> Any:
     """Splice private (non-anchored) helpers that are a block of statements with at most one trailing return
     into the statement whose whole value is the call (expression statement, plain / annotated / augmented
     assignment, return) — on a copy.  Unlike the engine's splicer this also covers `x += helper(...)` and
@@ -305,7 +448,8 @@ def splice_blocks(prog: Program, fn: FuncInfo, depth: int = 3) -> Any:
                 if not isinstance(val, ast.Call):
                     continue
                 h = _helper_target(prog, fn, val, {})
-                if h is None or h.name in ANCHOR_NAMES or h.name == fn.node.name or isinstance(h, ast.AsyncFunctionDef):
+                if h is None or h.name in ANCHOR_NAMES or h.name in keep or h.name == fn.node.name \
+                        or isinstance(h, ast.AsyncFunctionDef):
                     continue
                 if any(not (isinstance(d, ast.Name) and d.id in ("staticmethod", "override")) for d in h.decorator_list):
                     continue
@@ -658,8 +802,12 @@ def discover_roles(prog: Program, pow_operand: Callable[[FuncInfo, list[Region]]
     inv = {v: k for k, v in roles.dp.items()}
     ar_args = [positional(e.node, _params(ar)) for _r, _p, e in the_call(  # type: ignore[arg-type]
         dregs, sc(prog, "ar"), dp)]
-    mip_args = [positional(e.node, _params(mip)) for _r, _p, e in the_call(  # type: ignore[arg-type]
-        dregs, sc(prog, "mip"), dp, "C02.INV")]
+    if has(prog, "mip"):
+        mip_args = [positional(e.node, _params(mip)) for _r, _p, e in the_call(  # type: ignore[arg-type]
+            dregs, sc(prog, "mip"), dp, "C02.INV")]
+    else:       # the per-inverter split is part of the allocation function: it reads that function's tables
+        mip_args = []
+        roles.mip = {k: v for k, v in roles.dp.items() if k in ("incl", "excl")}
     for args, dst, need in ((ar_args, roles.ar, ("excl",)), (mip_args, roles.mip, ("incl", "excl"))):
         for a in args:
             for prm, v in a.items():
@@ -687,6 +835,6 @@ def discover_roles(prog: Program, pow_operand: Callable[[FuncInfo, list[Region]]
     for fname, args in entry_args.items():
         v = args.get(roles.dp["avail"])
         if v is None:
-            raise AnalysisError(f"{BDA}.{fname}: no SoC headroom handed to _distribute_power")
+            raise AnalysisError(f"{q(prog, fname)}: no SoC headroom handed on")
         roles.headroom[fname] = (v, entry_paths[fname])
     return roles
